@@ -112,6 +112,7 @@ var _ gengotypes.TypeName
 func spec_old[T any](v T) T                             { return v }
 func spec_entry[T any](v T) T                           { return v }
 func spec_has[K comparable, V any](m map[K]V, k K) bool { _, ok := m[k]; return ok }
+func spec_elem[T comparable](x T, s []T) bool           { for _, y := range s { if y == x { return true } }; return false }
 func spec_implies(a, b bool) bool                       { return !a || b }
 func spec_iff(a, b bool) bool                           { return a == b }
 func spec_eq[T any](a, b T) bool                        { panic("ghost: structural equality") }
